@@ -322,9 +322,6 @@ def run_check(prop: str, tier: str) -> int:
             for k, detail in got:
                 ctx.violation(k, case, detail)
         mod.run(ctx)
-        bad = [d for d, ok in ctx.guards if not ok]
-        if bad:
-            raise HarnessError("vacuity guard(s) failed: " + "; ".join(bad))
         # classify
         new: List[Tuple[str, Any, str]] = []
         known_hits: List[str] = []
@@ -347,6 +344,10 @@ def run_check(prop: str, tier: str) -> int:
                 f.write(jdump({"property": prop, "key": key, "case": case, "detail": detail,
                                "was_fixed": (prop, key) in known.fixed}, indent=1))
             print(f"VIOLATION property={prop} replay={os.path.relpath(path, VERIF)}  key={key} :: {detail[:300]}")
+        bad = [d for d, ok in ctx.guards if not ok]
+        if bad and not new and not known_hits:
+            # (with violations present, exploration below a violating state is cut, so guards are not judged)
+            raise HarnessError("vacuity guard(s) failed: " + "; ".join(bad))
         path = write_evidence(ctx, len(new), known_hits)
         c = ctx.counts
         print(f"[{prop} {tier}] evaluations={c.get('evaluations', 0)} states={c.get('states', '-')} "
